@@ -129,6 +129,59 @@ fn main() {
         }
     }
     let canswers = ask(&creqs);
+    // the VM model run on the model-compiled code must behave like the real pipeline too
+    let vreqs: Vec<String> = creqs
+        .iter()
+        .map(|r| {
+            // (core.compare <src> <table> <code>) -> (core.run <fuel> <src>)
+            let src_end = {
+                // the first top-level s-expression after the command
+                let body = &r["(core.compare ".len()..];
+                let mut depth = 0i32;
+                let mut end = 0;
+                for (i, ch) in body.char_indices() {
+                    if ch == '(' {
+                        depth += 1;
+                    } else if ch == ')' {
+                        depth -= 1;
+                        if depth == 0 {
+                            end = i + 1;
+                            break;
+                        }
+                    }
+                }
+                end
+            };
+            format!("(core.run {} {})", BUDGET, &r["(core.compare ".len().."(core.compare ".len() + src_end])
+        })
+        .collect();
+    let vanswers = ask(&vreqs);
+    for (j, a) in vanswers.iter().enumerate() {
+        let c = &cases[cidx[j]];
+        let real = run_real(&c.text, b"", BUDGET);
+        match parse_ref_answer(a) {
+            Some(vm) => {
+                if vm.0 == "outOfFuel" || real.outcome == "budget" {
+                    rep.bump("vm-model.discarded-fuel");
+                } else if vm.0 == "stuck" {
+                    // the model VM gives up on inexact floats (and on anything the real VM would panic on)
+                    rep.bump("vm-model.stuck-or-inexact");
+                } else if vm.0 != real.outcome || vm.1 != real.out {
+                    rep.fail(Failure {
+                        kind: Kind::ModelVsImpl,
+                        signature: format!("vm-model:{}", if vm.0 != real.outcome { "outcome" } else { "output" }),
+                        input: c.text.clone(),
+                        implementation: format!("{} / {:?}", real.outcome, String::from_utf8_lossy(&real.out)),
+                        expected: format!("{} / {:?}", vm.0, String::from_utf8_lossy(&vm.1)),
+                        note: "real pipeline vs RbModel.CoreVm.run (RbModel.Core.compile p)".into(),
+                    });
+                } else {
+                    rep.bump("vm-model.same");
+                }
+            }
+            None => rep.bump("vm-model.unreadable"),
+        }
+    }
     for (j, a) in canswers.iter().enumerate() {
         let c = &cases[cidx[j]];
         if a.starts_with("(same") {
